@@ -499,9 +499,6 @@ class WsgiApplication(HttpBase):
                 return self.handle_error(p_ctx, others, p_ctx.out_error,
                                                                  start_response)
 
-        if p_ctx.transport.resp_code is None:
-            p_ctx.transport.resp_code = HTTP_200
-
         try:
             self.get_out_string(p_ctx)
 
@@ -511,6 +508,11 @@ class WsgiApplication(HttpBase):
             p_ctx.fire_event('method_exception_object')
             return self.handle_error(p_ctx, others, p_ctx.out_error,
                                                                  start_response)
+
+        # (only now: a call that ends in a fault above has the status of its
+        # fault, not the one of a success)
+        if p_ctx.transport.resp_code is None:
+            p_ctx.transport.resp_code = HTTP_200
 
 
         if isinstance(p_ctx.out_protocol, HttpRpc) and \
@@ -541,7 +543,20 @@ class WsgiApplication(HttpBase):
             if 'Content-Length' in p_ctx.transport.resp_headers:
                 del p_ctx.transport.resp_headers['Content-Length']
         else:
-            p_ctx.out_string = [b''.join(p_ctx.out_string)]
+            try:
+                p_ctx.out_string = [b''.join(p_ctx.out_string)]
+
+            except Exception as e:
+                # a body that is produced lazily is produced here: when its
+                # producer fails the call ends in a fault like any other
+                logger.exception(e)
+                p_ctx.out_error = Fault('Server',
+                                             get_fault_string_from_exception(e))
+                if p_ctx.transport.resp_code == HTTP_200:
+                    p_ctx.transport.resp_code = None
+                p_ctx.fire_event('method_exception_object')
+                return self.handle_error(p_ctx, others, p_ctx.out_error,
+                                                                 start_response)
 
         try:
             len(p_ctx.out_string)
